@@ -10,11 +10,11 @@ OPQ_MODELS = {
     'source': {'__getitem__': 'method:opq:ndarray', 'dtype': 'opq:sdtype', '__isinstance__': {}},
     'sarray': {'dtype': 'opq:sdtype', 'shape0': 'int:nat', '__getitem__': 'method:opq:chunk',      # caller's structured array: slicing = view
                '__isinstance__': {'np.ndarray': True}},
-    'ndarray': {'dtype': 'opq:dtype', 'byteswap': 'method:opq:ndarray', 'view': 'method:opq:ndarray', 'ndim': 'int:nat', 'size': 'int:nat', 'shape0': 'int:nat', 'shape_last': 'int:nat', '__getitem__': 'method:opq:ndarray',
+    'ndarray': {'dtype': 'opq:dtype', '__setitem__': 'method!:opq:ndarray', 'byteswap': 'method:opq:ndarray', 'view': 'method:opq:ndarray', 'ndim': 'int:nat', 'size': 'int:nat', 'shape0': 'int:nat', 'shape_last': 'int:nat', '__getitem__': 'method:opq:ndarray',
                 'min': 'method:opq:scalar', 'max': 'method:opq:scalar', '__isinstance__': {'np.ndarray': True}},
     'slot': {'byteswap': 'method:opq:slot', 'tobytes': 'method:bytes', '__isinstance__': {'np.ndarray': None}},
-    'sdtype': {'names': 'opq:names', 'newbyteorder': 'method:opq:sdtype', '__isinstance__': {'np.dtype': True}},
-    'dtype': {'name': 'str', 'isnative': 'bool', 'newbyteorder': 'method:opq:dtype', '__isinstance__': {'np.dtype': True}},
+    'sdtype': {'names': 'opq:names', '__getitem__': 'method:opq:dtype', 'newbyteorder': 'method:opq:sdtype', '__isinstance__': {'np.dtype': True}},
+    'dtype': {'name': 'str', 'kind': 'str', 'base': 'opq:dtype', 'isnative': 'bool', 'newbyteorder': 'method:opq:dtype', '__isinstance__': {'np.dtype': True}},
     'rowgen': {'__isinstance__': {}},
     'row': {'__isinstance__': {}},
 }
@@ -96,7 +96,7 @@ CONTRACTS.update({
               "chunk_field_first(result, 'K0') == self._from_idx + start and chunk_field_first(result, 'K1') == self._from_idx + start and "
               "chunk_field_src(result, 'K0') == self._data_source[self._mapping['K0']] and chunk_field_src(result, 'K1') == self._data_source[self._mapping['K1']]")]),
  'NumpyDataWrapper.load_chunk': dict(
-    props=['C11', 'C03', 'C08', 'C10'], self_fields=NW_FIELDS, self_inv=SW_INV + ['self._to_idx <= self._data_source.shape0'],
+    props=['C11', 'C03', 'C08', 'C10'], self_fields=dict(NW_FIELDS, _mapping=M2), self_inv=SW_INV + ['self._to_idx <= self._data_source.shape0'],
     params={'start': 'int', 'stop': 'int?'}, returns='opq:chunk',
     stubs={}, raises={'ValueError': f'self._dtype != self._data_source.dtype and ({LOAD_RAISES})'},
     requires=['0 <= start', f'start <= {STOP}', f'{STOP} <= self._n_rows'],
@@ -135,7 +135,7 @@ CONTRACTS.update({
 for _k in (1, 2):
     _slots = ' + '.join(f'self._slots[{i}].byteswap().tobytes()' for i in range(_k))
     CONTRACTS[f'FrameData._make_body_bytes[{_k}-slots]'] = dict(
-        target='FrameData._make_body_bytes', props=['C03', 'C08', 'C19', 'C14'],
+        target='FrameData._make_body_bytes', props=['C03', 'C08', 'C19', 'C14', 'C06'],
         self_fields={'_frame': FRAME_REF, '_frame_number': 'int', '_slots': f'list[opq:slot]*{_k}'},
         params={}, returns='bytes',
         raises=dict({k: v.replace('value.', 'self._frame.') for k, v in OBN_RAISES.items()},
@@ -145,10 +145,13 @@ for _k in (1, 2):
                   f"result == enc_obname(self._frame._origin_reference, self._frame._copy_number, self._frame.name) + enc_uvari(self._frame_number) + {_slots}")])
 
 CONTRACTS['MultiFrameData.__init__'] = dict(
-    props=['C03', 'C10', 'C18'], self_fields={}, self_inv=[],
+    props=['C03', 'C10', 'C18', 'C08'], self_fields={}, self_inv=[],
     params={'frame': {'cls': 'FrameItem', 'fields': {'_origin_reference': 'int?', 'channels': {'cls': 'Attribute', 'fields': {'_value': 'list[obj:NamedT]*2'}}}},
             'data': {'cls': 'SourceDataWrapper', 'fields': SW_FIELDS, 'inv': SW_INV}, 'chunk_size': 'int?'},
-    returns='none', may_raise=['ValueError', 'TypeError'],
+    returns='none', may_raise=['TypeError'],
+    # C08 / C03: the slots of a row are the fields of the data in THEIR order; a frame is accepted only when its channel list names
+    # exactly those fields in that order (a repeated or missing name would announce a layout the rows do not have)
+    raises={'ValueError': '(chunk_size is not None and chunk_size < 1) or tuple(c.name for c in frame.channels.value) != data.dtype.names'},
     modifies=['self._frame', 'self._data_source', 'self._i', 'self._chunk_rows', 'self._origin_reference', 'self._data_item_generator'],
     stubs={'_check_type': dict(returns='none', raises=True)},
     ensures=[('chunk-size-positive-or-none', 'self._chunk_rows is None or self._chunk_rows >= 1'), ('chunk-size-kept', 'self._chunk_rows == chunk_size'),
@@ -184,7 +187,7 @@ for _known in ((), ('K0',), ('K1',), ('K0', 'K1')):
     _kd = 'dict{' + ','.join(f'{k}:opq:dtype' for k in _known) + '}'
     _bad = ' or '.join(f"source_missing(data_object, mapping['{k}'])" for k in ('K0', 'K1'))
     CONTRACTS[f'SourceDataWrapper.determine_dtypes[2-channels,known={"+".join(_known) or "none"}]'] = dict(
-        target='SourceDataWrapper.determine_dtypes', props=['C08', 'C03', 'C12', 'C14', 'C11'],
+        target='SourceDataWrapper.determine_dtypes', props=['C08', 'C03', 'C12', 'C14', 'C11', 'C06'],
         params={'data_object': 'opq:source', 'mapping': M2, 'known_dtypes': _kd}, returns='opq:sdtype',
         may_raise=['ValueError', 'RuntimeError'],
         ensures=[(f'field-{k}-has-the-known-dtype-else-the-source-dtype-in-native-byte-order',
